@@ -1158,6 +1158,14 @@ def finding_probes(ctx):
     for f in ctx.findings:
         if f.get('status') != 'open':
             continue
+        if 'stats_probe' in f['witness']:          # a finding of the validation-only part: replay its probe
+            from harness.props import c19_stats
+            reproduced, detail = getattr(c19_stats, 'probe_' + f['witness']['stats_probe'])()
+            if reproduced:
+                ctx.known(f['id'])
+            else:
+                ctx.notes.append(f"finding_not_reproduced {f['id']} ({detail})")
+            continue
         kept, verdicts, _, _ = run_specs(ctx, [f['witness']], 'finding-' + f['id'], quiet=True)
         tags = set(verdicts[0]) if verdicts else set()
         guard_tag = {FINDING_RSE: 201, FINDING_GRAD: 202, FINDING_ROUND: 204}.get(f['id'])
